@@ -3,7 +3,7 @@
    padded exactly up to the requested index - for every document and every
    straight path. *)
 From Coq Require Import String List ZArith NArith Bool Lia Arith.
-From YP Require Import Outcome PyStr PyVal Doc Searches Mutate Create C04spec C04lists C04delete C04order
+From YP Require Import Outcome PyStr PyVal Doc Searches Mutate Create C04spec C04lists C04delete C04plan
   C09create C09createP.
 Import ListNotations.
 
